@@ -955,8 +955,9 @@ class AASDataChecker(DataChecker):
 
         for shell_2 in shell_list_2:
             shell_1 = obj_store_1.get(shell_2.id)
-            if self.check(shell_1 is not None, 'Asset administration shell {} must exist in given asset administration'
-                                               'shell list'.format(shell_2)):
+            if self.check(isinstance(shell_1, model.AssetAdministrationShell),
+                          'Asset administration shell {} must exist in given asset administration'
+                          'shell list'.format(shell_2)):
                 self.check_asset_administration_shell_equal(shell_1, shell_2)  # type: ignore
 
         found_elements = self._find_extra_elements_by_attribute(shell_list_1, shell_list_2, 'id')
@@ -965,7 +966,8 @@ class AASDataChecker(DataChecker):
 
         for submodel_2 in submodel_list_2:
             submodel_1 = obj_store_1.get(submodel_2.id)
-            if self.check(submodel_1 is not None, 'Submodel {} must exist in given submodel list'.format(submodel_2)):
+            if self.check(isinstance(submodel_1, model.Submodel),
+                          'Submodel {} must exist in given submodel list'.format(submodel_2)):
                 self.check_submodel_equal(submodel_1, submodel_2)  # type: ignore
 
         found_elements = self._find_extra_elements_by_attribute(submodel_list_1, submodel_list_2, 'id')
@@ -974,8 +976,9 @@ class AASDataChecker(DataChecker):
 
         for cd_2 in concept_description_list_2:
             cd_1 = obj_store_1.get(cd_2.id)
-            if self.check(cd_1 is not None, 'Concept description {} must exist in given concept description '
-                                            'list'.format(cd_2)):
+            if self.check(isinstance(cd_1, model.ConceptDescription),
+                          'Concept description {} must exist in given concept description '
+                          'list'.format(cd_2)):
                 self.check_concept_description_equal(cd_1, cd_2)  # type: ignore
 
         found_elements = self._find_extra_elements_by_attribute(concept_description_list_1, concept_description_list_2,
